@@ -593,10 +593,12 @@ def type_errors(schema: Schema, m: Msg, msg, path: str = "") -> List[str]:
         if not ok:
             errs.append(f"{where}: {kind} holds {type(x).__name__}")
 
+    raw = object.__getattribute__(msg, "__dict__")
     for f in m.fields:
-        try:
-            v = getattr(msg, f.name)
-        except AttributeError:
+        # raw slots only: reading through getattr would materialise lazy defaults
+        # (and never terminate on recursive message types)
+        v = raw.get(f.name, betterproto.PLACEHOLDER)
+        if v is betterproto.PLACEHOLDER:
             continue
         where = path + f.name
         if f.card == "repeated":
